@@ -29,7 +29,6 @@
 (*            binary did), evaluate the formulas, write the failing cases  *)
 (*            to IOEnv.OUT                                                 *)
 (*   "laws"   check the laws that justify the formulas on all structures   *)
-(*   "render" the files of given structures                                *)
 (***************************************************************************)
 EXTENDS Integers, Sequences, FiniteSets, TLC, Json, IOUtils, SequencesExt
 
@@ -246,8 +245,8 @@ ASSUME Step = "gen" =>
      /\ PrintT(<<"GEN", Len(cs), "OPTCASES", FoldLeft(LAMBDA a, x : a + Len(x.opts), 0, cs)>>)
 
 (***************************************************************************)
-(* Step "render": the file of given structures (used when a failing case   *)
-(* is reduced to a smaller one and for replays).                           *)
+(* Well-formedness of a structure that was not built by Forests (cases    *)
+(* reduced by the driver, replays); used by the judge's RenderOk.          *)
 (***************************************************************************)
 RECURSIVE MacroSeq(_)
 MacroSeq(fo) == IF fo = <<>> THEN <<>>
@@ -257,13 +256,6 @@ KindsOk(fo) == \A i \in DOMAIN fo : /\ fo[i].k \in AllKinds /\ KindsOk(fo[i].t) 
                                      /\ (~fo[i].he => fo[i].e = <<>>)
 \* macros pairwise distinct, numbered in preorder
 WellFormed(fo) == KindsOk(fo) /\ MacroSeq(fo) = [i \in 1..NNodes(fo) |-> i]
-
-ASSUME Step = "render" =>
-  LET cs == ndJsonDeserialize(IOEnv.CASES)
-  IN /\ \A i \in DOMAIN cs : WellFormed(cs[i].forest)
-     /\ ndJsonSerialize(IOEnv.OUT, [i \in DOMAIN cs |->
-            [id |-> cs[i].id, n |-> NNodes(cs[i].forest), combos |-> Combos(Lines(cs[i].forest)),
-             forest |-> cs[i].forest, lines |-> LinesOut(cs[i].forest), opts |-> cs[i].opts]])
 
 (***************************************************************************)
 (* Laws (step "laws"): all structures with <= NFULL nodes in all spellings *)
@@ -307,7 +299,10 @@ Judge(case, run, o, kk) ==
                     [f |-> "SkipSound", ok |-> SkipSound(L, cfgs)],
                     [f |-> "AllSettled", ok |-> AllSettled(cfgs)],
                     [f |-> "ReportExact", ok |-> ReportExact(L, checked, reported, run.others)],
-                    [f |-> "RunOk", ok |-> run.rc = 0]>>
+                    [f |-> "RunOk", ok |-> run.rc = 0],
+                    \* a case that was not rendered by this module (reductions, replays) must be the file of its structure
+                    [f |-> "RenderOk", ok |-> IF "lines" \in DOMAIN case
+                                              THEN WellFormed(case.forest) /\ case.lines = LinesOut(case.forest) ELSE TRUE]>>
       failed == SelectSeq(verdicts, LAMBDA v : ~v.ok)
   IN [id |-> case.id, k |-> kk,
       failed |-> [i \in DOMAIN failed |-> failed[i].f],
